@@ -1,5 +1,6 @@
 import FimVerif.Proofs.Lemmas.C20Lock
 import FimVerif.Proofs.Lemmas.C20Sched
+import FimVerif.Proofs.Lemmas.C20Fine
 import FimVerif.Generated.LockCfg
 /-!
 # C20 — store lock discipline and identifier allocation under concurrent use
@@ -127,6 +128,24 @@ theorem store_methods_release_exactly_once :
   have h1 := balanced_sound m.2 hb he
   exact ⟨h1, released_exactly_once h1⟩
 
+/-- **the same for a concrete call**: a call on graph `g` importing `k` nodes runs the skeleton with its symbolic counters,
+graph and sizes replaced (`instStmt`, what the correspondence replays); the lock monitor does not see the parameters, so every
+path of every instantiated locking method releases the lock exactly once as well -/
+theorem store_methods_release_exactly_once_inst :
+    ∀ m ∈ LockCfg.locking, ∀ g k tr o, Exec (instStmt g k m.2) tr o →
+      lockRun tr = some (false, 1) ∧ tr.count .rel = 1 ∧ tr.count .acq = 1 := by
+  intro m hm g k tr o he
+  have hb : balanced (instStmt g k m.2) = true := by
+    rw [balanced_inst]
+    have := methods_balanced
+    simp only [List.all_eq_true] at this
+    exact this m hm
+  have h1 := balanced_sound _ hb he
+  exact ⟨h1, released_exactly_once h1⟩
+
+example : Exec (instStmt 3 2 LockCfg.shared_del_all_graphs) [.acq, .delAll, .rel] .norm :=
+  .seqNorm (.primOk _ _) (.seqNorm (.primOk _ _) (.primOk _ _))
+
 /-- non-vacuity: the first generated method has a path (the one where nothing raises is among them),
 and a skeleton with a raising statement between acquire and release without `finally` is rejected,
 as is the double release the disjoint `add_graph` used to have. -/
@@ -199,8 +218,9 @@ theorem no_node_lost : dictView (run sched (init progs)).sh.nodes = (run sched (
   obtain ⟨qs, h⟩ := reachable_inv hacc sched
   exact dictView_eq_of_nodup _ h.nodup
 
-/-- **store_never_replaced**: the store object and its lock are never swapped for fresh ones — the shared state
-of the step relation keeps its identity (`gen`) under every schedule -/
+/-- **store_never_replaced**: the store object and its lock object are never swapped for fresh ones — neither by a shell's
+creation guard (`ctor`) nor by a method re-running `__init__` / assigning `self.lock` (`reinit`); the shared state of the step
+relation keeps its identity (`gen`) under every schedule -/
 theorem store_never_replaced : (run sched (init progs)).sh.gen = 0 := by
   have := (Inv.init hacc).run_gen sched
   simpa [Sched.init, initShared] using this
@@ -292,6 +312,85 @@ theorem store_threads_safe (progs : List (List Micro)) (h : ∀ p ∈ progs, Sto
   ⟨unique_ids progs hacc sched, no_node_lost progs hacc sched, no_release_error progs hacc sched,
    store_never_replaced progs hacc sched, lock_free_at_end progs hacc sched⟩
 
+/-! ### below the source line: atoms -/
+
+/-- **atoms_accepted**: replacing every micro-instruction of an accepted program by the atoms it consists of (`FineM`: a counter
+increment is a load and a store, an insertion of `k` nodes is `k` dictionary insertions, a deletion is one dictionary deletion
+per node) gives a program the discipline monitor accepts too — so every theorem of this section holds with a thread switch
+possible between any two atoms, not only between source lines -/
+theorem atoms_accepted {p p' : List Micro} (hf : Fine p p') (h : accepts p = true) : accepts p' = true :=
+  fine_accepts hf h
+
+/-- **store_threads_safe_atomwise**: any number of threads, each running any sequence of paths of the generated skeletons expanded
+into atoms in any way, under any schedule of the atoms: no identifier twice, no node lost, no lock error, one store and one
+lock object, at most one thread inside a locked region, the lock free when all have finished -/
+theorem store_threads_safe_atomwise (progs : List (List Micro)) (h : ∀ p' ∈ progs, ∃ p, StoreProg p ∧ Fine p p') (sched : List Nat) :
+    ((run sched (init progs)).sh.nodes.map Node.key).Nodup ∧
+    dictView (run sched (init progs)).sh.nodes = (run sched (init progs)).sh.nodes ∧
+    (run sched (init progs)).relErr = false ∧
+    (run sched (init progs)).sh.gen = 0 ∧
+    (∀ t u, inside ((run sched (init progs)).thr t).prog = true → inside ((run sched (init progs)).thr u).prog = true → t = u) ∧
+    (finished (run sched (init progs)) → (run sched (init progs)).lock = none) :=
+  have hacc : ∀ p ∈ progs, accepts p = true := fun p' hp => by
+    obtain ⟨p, hp1, hp2⟩ := h p' hp
+    exact fine_accepts hp2 (storeProg_accepts hp1)
+  ⟨unique_ids progs hacc sched, no_node_lost progs hacc sched, no_release_error progs hacc sched,
+   store_never_replaced progs hacc sched, fun t u ht hu => (mutual_exclusion progs hacc sched t u ht hu).1,
+   lock_free_at_end progs hacc sched⟩
+
+/-- non-vacuity: the import path of the shared store, expanded: the increment is split, the two nodes are inserted one by one -/
+example : Fine [.acq, .rdg, .read 0, .bump 0 2, .add 0 1 2, .rdg, .rel]
+    [.acq, .rdg, .read 0, .ld 0, .st 0 2, .ins 0 1 0, .ins 0 1 1, .rdg, .rel] :=
+  .cons (.same _) (.cons (.same _) (.cons (.same _) (.cons (.bump 0 2) (.cons (.add 0 1 2 (by decide)) (.cons (.same _) (.cons (.same _) .nil))))))
+example : accepts [.acq, .rdg, .read 0, .ld 0, .st 0 2, .ins 0 1 0, .ins 0 1 1, .rdg, .rel] = true := by decide
+
+/-- what the atoms show that the line-level model cannot: an increment that is not protected by the lock loses an update even
+though every single step is atomic (thread 0 loads, thread 1 loads, both store the same value) -/
+theorem split_increment_counterexample :
+    let progs : List (List Micro) := [[.ld 0, .st 0 1], [.ld 0, .st 0 1]]
+    (run [0, 1, 0, 1] (init progs)).sh.ctr 0 = 2 ∧ (run [0, 0, 1, 1] (init progs)).sh.ctr 0 = 3 ∧ (progs.all accepts) = false := by
+  decide
+
+/-! ### deletions concurrent with imports -/
+
+/-- **each_graph_exact_with_deletes**: for every number of threads, all accepted programs (imports, node creation, `del_graph`,
+`del_all_graphs`, rebuilds, in any mix) and every schedule, at every moment: the store's dictionary holds, for every id space
+`c` and graph `g`, exactly as many nodes as the executed instructions inserted for `(c, g)` since the last executed deletion
+that covered them (`ledger`, computed from the executed instructions alone) — no insertion was swallowed by another, no deleted
+node survived, no node of another graph was taken along -/
+theorem each_graph_exact_with_deletes (progs : List (List Micro)) (hacc : ∀ p ∈ progs, accepts p = true)
+    (hrm : ∀ p ∈ progs, ∀ m ∈ p, noRm m = true) (sched : List Nat) (c g : Nat) :
+    cntCG c g (dictView (run sched (init progs)).sh.nodes) = ledger c g (trace sched (init progs)) := by
+  rw [no_node_lost progs hacc sched]
+  have := run_ledger c g sched (init progs) (by
+    intro t m hm
+    simp only [Sched.init] at hm
+    by_cases ht : t < progs.length
+    · have : progs.getD t [] = progs[t] := by simp [List.getD, ht]
+      rw [this] at hm
+      exact hrm _ (List.getElem_mem ht) m hm
+    · simp only [List.getD_eq_getElem?_getD] at hm
+      rw [List.getElem?_eq_none (by omega)] at hm; cases hm)
+  rw [this]
+  simp [Sched.init, initShared, cntCG, ledger]
+
+/-- a deletion that covers `(c, g)` starts the count over: whatever was imported before `del_all_graphs` / `del_graph g` /
+a rebuild of id space `c` in the order of execution does not count -/
+theorem ledger_after_delete (c g : Nat) (a b : List Micro) :
+    ledger c g (a ++ .delAll :: b) = ledger c g b ∧ ledger c g (a ++ .del g :: b) = ledger c g b ∧
+    ledger c g (a ++ .delSpace c :: b) = ledger c g b :=
+  ⟨ledger_append_reset c g a b _ (fun _ => rfl), ledger_append_reset c g a b _ (fun _ => by simp [ledgerStep]),
+   ledger_append_reset c g a b _ (fun _ => by simp [ledgerStep])⟩
+
+/-- non-vacuity: `del_all_graphs` of thread 1 lands between the import of graph 1 and the node creation of thread 0 -/
+example :
+    let progs : List (List Micro) := [[.acq, .read 0, .bump 0 2, .add 0 1 2, .rel, .acq, .read 0, .add 0 1 1, .bump 0 1, .rel],
+                                      [.acq, .delAll, .rel]]
+    let sched := [0, 0, 0, 0, 0, 1, 1, 1, 0, 0, 0, 0, 0]
+    (progs.all accepts) = true ∧ (progs.all fun p => p.all noRm) = true ∧
+    ledger 0 1 (trace sched (init progs)) = 1 ∧ (run sched (init progs)).sh.nodes.length = 1 := by
+  decide
+
 /-- the creation guard of each shell can only fire when there is no store yet: it tests `is None`, or the store
 class cannot be falsy (no `__len__` / `__bool__`) -/
 theorem singleton_guard_stable : (LockCfg.singletons.all fun s => s.2.1 || !s.2.2) = true := by decide
@@ -306,6 +405,17 @@ theorem weak_guard_counterexample :
     s.sh.gen = 2 ∧ (progs.all accepts) = false ∧ accepts [.ctor false, .acq, .rdg, .rel] = true := by
   decide
 
+
+/-- `with self.lock: self.__init__(...)` (a "reset" of the store from inside one of its methods) installs a new lock object
+while the old one is held: thread 1 takes the new lock while thread 0 is still inside its locked region, and the release of
+thread 0 then frees the lock thread 1 holds -/
+theorem reinit_counterexample :
+    let progs : List (List Micro) := [[.acq, .reinit, .rdg, .rel], [.acq, .read 0, .bump 0 1, .add 0 1 1, .rel]]
+    let s := run [0, 0, 1] (init progs)
+    let s' := run [0, 0, 1, 0, 0] (init progs)
+    s.sh.gen = 1 ∧ s.lock = some 1 ∧ inside (s.thr 0).prog = true ∧ inside (s.thr 1).prog = true ∧
+    s'.lock = none ∧ inside (s'.thr 1).prog = true ∧ (progs.all accepts) = false := by
+  decide
 
 example : accepts [.acq, .read 0, .add 0 1 1, .bump 0 1, .rel, .acq, .rdg, .delSpace 3, .addFrom 3 3 1 2, .setCtr 3 3, .rel] = true := by decide
 
